@@ -44,9 +44,16 @@ class Composition:
     spaces + the preconditions its member states must meet"""
 
     def __init__(self, rng, hmax=7, wmax=7, force_transitions=None, deterministic_obs=False,
-                 force_all_actions=False):
+                 force_all_actions=False, dense=False):
+        """dense=True: every built-in transition function (random order), every reward kind and every object type at
+        once, so that components interact in every step"""
         self.types = gen.subsets_sample(rng, gen.GRID_TYPES, must_include=(Floor,), p=0.65)
         self.colors = gen.subsets_sample(rng, gen.COLORS, must_include=(Color.NONE,), p=0.5)
+        if dense:
+            self.types = list(gen.GRID_TYPES)
+            self.colors = list(gen.COLORS) if rng.random() < 0.5 else self.colors
+            force_transitions = rng.sample(TRANSITIONS, len(TRANSITIONS))
+            force_all_actions = True
         self.shape = gen.rand_shape(rng, hmax, wmax)
         self.area = gen.obs_space_area(rng)
         self.unique_type = None
@@ -57,8 +64,15 @@ class Composition:
 
         cands = [t for t in UNIQUE_CANDIDATES if t in self.types]
         self.rewards = []
-        for _ in range(rng.randint(1, 5)):
-            self.rewards.append(self._rand_reward(rng, cands))
+        if dense:
+            cands = [Exit, Beacon]
+            for kind in ['living_reward', 'reach_exit', 'bump_moving_obstacle', 'bump_into_wall', 'actuate_door', 'pickndrop',
+                         'overlap', 'reach_exit_memory', 'proportional_to_distance', 'getting_closer',
+                         'getting_closer_shortest_path', 'reduce_sum']:
+                self.rewards.append(self._rand_reward(rng, cands, kind))
+        else:
+            for _ in range(rng.randint(1, 5)):
+                self.rewards.append(self._rand_reward(rng, cands))
         self.terminating = self._rand_term(rng, 0)
         obs = rng.choice(OBSERVATIONS[:3] if deterministic_obs else OBSERVATIONS + ['from_visibility'])
         a = [[self.area.ymin, self.area.ymax], [self.area.xmin, self.area.xmax]]
@@ -75,8 +89,8 @@ class Composition:
             self.actions = rng.sample(list(Action), rng.randint(1, 7))
         self.id = digest(self.data())
 
-    def _rand_reward(self, rng, cands):
-        kind = rng.choice(
+    def _rand_reward(self, rng, cands, kind=None):
+        kind = kind or rng.choice(
             ['living_reward', 'reach_exit', 'bump_moving_obstacle', 'bump_into_wall', 'actuate_door',
              'pickndrop', 'overlap', 'reach_exit_memory', 'proportional_to_distance', 'getting_closer',
              'getting_closer_shortest_path', 'reduce_sum']
@@ -326,3 +340,76 @@ class GoalMixPolicy:
         a = self.plan.pop(0)
         self.expected = None
         return a
+
+
+def steer(comp, rng, state, n_scenarios=None):
+    """Steer a member state of `comp` towards situations in which several components interact (agent on a telepod with a
+    partner near an edge, door / box / key in front, matching key in hand, obstacle next to the agent ...), using only
+    declared types and colours and keeping the composition's preconditions (unique object, beacon) intact.
+    Mutates and returns `state`; returns the list of scenarios applied."""
+    h, w = comp.shape
+    U = comp.unique_type
+    types, colors = comp.types, comp.colors
+    applied = []
+
+    def free(y, x):
+        if not gen.in_grid(state, y, x):
+            return False
+        o = state.grid[y, x]
+        if U is not None and isinstance(o, U):
+            return False
+        if comp.need_beacon and isinstance(o, Beacon) and sum(isinstance(c, Beacon) for r in state.grid.objects for c in r) <= 1:
+            return False
+        return True
+
+    def ok(T):
+        return T in types and T is not U
+
+    for _ in range(n_scenarios or rng.randint(1, 3)):
+        fy, fx = gen.front_of(state)
+        ay, ax = state.agent.position.y, state.agent.position.x
+        sc = rng.choice(['on_telepod', 'on_telepod', 'door_front', 'door_front', 'box_front', 'key_front', 'hold_key', 'obstacle_near',
+                         'exit_near', 'wall_front'])
+        if sc == 'on_telepod' and ok(Telepod) and free(ay, ax) and h * w > 1:
+            c = rng.choice(colors)
+            state.grid[ay, ax] = Telepod(c)
+            # partners biased to the last row / last column / corners (their front cell may be outside the grid)
+            cands = [(h - 1, x) for x in range(w)] + [(y, w - 1) for y in range(h)] + [(0, 0), (rng.randrange(h), rng.randrange(w))]
+            cands = [p for p in cands if p != (ay, ax) and free(*p)]
+            for p in rng.sample(cands, min(len(cands), rng.randint(1, 2))):
+                state.grid[p[0], p[1]] = Telepod(c)
+            applied.append(sc)
+        elif sc == 'door_front' and ok(Door) and free(fy, fx):
+            c = rng.choice(colors)
+            state.grid[fy, fx] = Door(rng.choice(list(Door.Status)), c)
+            if ok(Key) and rng.random() < 0.6:
+                state.agent.grid_object = Key(c if rng.random() < 0.7 else rng.choice(colors))
+            applied.append(sc)
+        elif sc == 'box_front' and ok(Box) and free(fy, fx):
+            inner = [t for t in types if t is not U and t is not Box]
+            state.grid[fy, fx] = gen.make_obj(rng, Box, colors, inner or [Floor])
+            applied.append(sc)
+        elif sc == 'key_front' and ok(Key) and free(fy, fx):
+            state.grid[fy, fx] = Key(rng.choice(colors))
+            if rng.random() < 0.5:
+                state.agent.grid_object = NoneGridObject()
+            applied.append(sc)
+        elif sc == 'hold_key' and ok(Key):
+            state.agent.grid_object = Key(rng.choice(colors))
+            if free(fy, fx) and rng.random() < 0.5:
+                state.grid[fy, fx] = Floor()
+            applied.append(sc)
+        elif sc == 'obstacle_near' and ok(MovingObstacle):
+            dy, dx = rng.choice([(-1, 0), (1, 0), (0, -1), (0, 1)])
+            if free(ay + dy, ax + dx):
+                state.grid[ay + dy, ax + dx] = MovingObstacle()
+                applied.append(sc)
+        elif sc == 'exit_near' and ok(Exit):
+            dy, dx = rng.choice([(-1, 0), (1, 0), (0, -1), (0, 1)])
+            if free(ay + dy, ax + dx):
+                state.grid[ay + dy, ax + dx] = Exit(rng.choice(colors))
+                applied.append(sc)
+        elif sc == 'wall_front' and ok(Wall) and free(fy, fx):
+            state.grid[fy, fx] = Wall()
+            applied.append(sc)
+    return applied
